@@ -115,6 +115,14 @@ func sshKeyType(s string) (string, bool) {
 		return "", false
 	}
 	if t := fields[0]; t == string(typeBytes) {
+		// A key of a type we support can only be "unsupported but valid" (for
+		// example an RSA key that is too small) if it parses: a truncated or
+		// otherwise corrupted one is a malformed recipient, not one to skip.
+		if t == "ssh-rsa" || t == "ssh-ed25519" {
+			if _, err := ssh.ParsePublicKey(key); err != nil {
+				return "", false
+			}
+		}
 		return t, true
 	}
 	return "", false
